@@ -73,7 +73,7 @@ theorem set_set {α} (a : Array α) (i : Nat) (v w : α) : (a.setIfInBounds i v)
   by_cases h : i = k <;> simp [h]
 
 /-- one iteration of the regenerated drop loop is the model's `slideStep` -/
-theorem loop1_step (basis : Array W) (hB : 64 ≤ basis.size) (p : Pos) (hsz : p.cfg.size ≤ 8) (top : Piece) (stack : W) (dx dy : Int)
+theorem loop1_step (basis : Array W) (p : Pos) (hB : p.cfg.size * p.cfg.size ≤ basis.size) (hsz : p.cfg.size ≤ 8) (top : Piece) (stack : W) (dx dy : Int)
     (hdx : -1 ≤ dx ∧ dx ≤ 1) (hdy : -1 ≤ dy ∧ dy ≤ 1) (st : SlideSt) (inv : Inv basis p st) (i : Nat) (s : BitVec 32) (hs : s ≠ 0#32)
     (fuel : Nat) :
     Gen.movePreallocated_loop1 dx dy basis p.cfg.size p.cfg.size stack (C01.pieceByte top) (fuel + 1) (encSt st i s) =
@@ -107,9 +107,7 @@ theorem loop1_step (basis : Array W) (hB : 64 ≤ basis.size) (p : Pos) (hsz : p
   simp only [hcc, ↓reduceIte]
   have hjH : j < st.next.height.size := by omega
   have hjS : j < st.next.stacks.size := by omega
-  have hjB : j < basis.size := by
-    have : p.cfg.size * p.cfg.size ≤ 8 * 8 := Nat.mul_le_mul hsz hsz
-    omega
+  have hjB : j < basis.size := by omega
   have hk := (C01.pieceParts_is_source top).2.1
   unfold enterSquare
   simp only [hk, shl_bit, and_bit_ne]
@@ -186,24 +184,24 @@ theorem slideStep_inv (basis : Array W) (p : Pos) (top : Piece) (stack : W) (dx 
   refine ⟨?_, ?_, ?_, ?_, ?_, ?_⟩ <;> simp only [] <;> omega
 
 /-- what the drop loop never touches: reserves, ply, configuration -/
-def Frame (a b : Pos) : Prop :=
+def Untouched (a b : Pos) : Prop :=
   b.cfg = a.cfg ∧ b.c = a.c ∧ b.whiteStones = a.whiteStones ∧ b.whiteCaps = a.whiteCaps ∧ b.blackStones = a.blackStones ∧
   b.blackCaps = a.blackCaps ∧ b.move = a.move
 
-theorem Frame.refl (a : Pos) : Frame a a := ⟨rfl, rfl, rfl, rfl, rfl, rfl, rfl⟩
-theorem Frame.trans {a b c : Pos} (h1 : Frame a b) (h2 : Frame b c) : Frame a c := by
+theorem Untouched.refl (a : Pos) : Untouched a a := ⟨rfl, rfl, rfl, rfl, rfl, rfl, rfl⟩
+theorem Untouched.trans {a b c : Pos} (h1 : Untouched a b) (h2 : Untouched b c) : Untouched a c := by
   obtain ⟨a1, a2, a3, a4, a5, a6, a7⟩ := h1
   obtain ⟨b1, b2, b3, b4, b5, b6, b7⟩ := h2
   exact ⟨b1.trans a1, b2.trans a2, b3.trans a3, b4.trans a4, b5.trans a5, b6.trans a6, b7.trans a7⟩
 
 theorem dropOn_frame (basis : Array W) (nx : Pos) (top : Piece) (stack : W) (ct c i : Nat) :
-    Frame nx (dropOn basis nx top stack ct c i) := by
-  unfold dropOn Pos.setStack Frame
+    Untouched nx (dropOn basis nx top stack ct c i) := by
+  unfold dropOn Pos.setStack Untouched
   simp only []
   split <;> split <;> (try split) <;> simp
 
 theorem slideStep_frame (basis : Array W) (p : Pos) (top : Piece) (stack : W) (dx dy : Int) (st st' : SlideSt) (c : Nat)
-    (h : slideStep basis p top stack dx dy st c = .ok st') : Frame st.next st'.next := by
+    (h : slideStep basis p top stack dx dy st c = .ok st') : Untouched st.next st'.next := by
   unfold slideStep at h
   simp only [] at h
   split at h
@@ -213,7 +211,7 @@ theorem slideStep_frame (basis : Array W) (p : Pos) (top : Piece) (stack : W) (d
   split at h
   · cases h
   rename_i nx hnx
-  have hf : Frame st.next nx := by
+  have hf : Untouched st.next nx := by
     unfold enterSquare at hnx
     split at hnx
     · cases hnx
@@ -221,14 +219,14 @@ theorem slideStep_frame (basis : Array W) (p : Pos) (top : Piece) (stack : W) (d
     · split at hnx
       · cases hnx
       · cases hnx; exact ⟨rfl, rfl, rfl, rfl, rfl, rfl, rfl⟩
-    · cases hnx; exact Frame.refl _
+    · cases hnx; exact Untouched.refl _
   cases h
   exact hf.trans (dropOn_frame basis nx top stack st.ct c _)
 
 theorem slideLoop_frame (basis : Array W) (p : Pos) (top : Piece) (stack : W) (dx dy : Int) (l : List Nat) :
-    ∀ (st st' : SlideSt), slideLoop basis p top stack dx dy l st = .ok st' → Frame st.next st'.next := by
+    ∀ (st st' : SlideSt), slideLoop basis p top stack dx dy l st = .ok st' → Untouched st.next st'.next := by
   induction l with
-  | nil => intro st st' h; simp only [slideLoop] at h; cases h; exact Frame.refl _
+  | nil => intro st st' h; simp only [slideLoop] at h; cases h; exact Untouched.refl _
   | cons c cs ih =>
     intro st st' h
     simp only [slideLoop] at h
@@ -238,9 +236,9 @@ theorem slideLoop_frame (basis : Array W) (p : Pos) (top : Piece) (stack : W) (d
       exact (slideStep_frame basis p top stack dx dy st st1 c h1).trans (ih st1 st' h)
 
 theorem liftFrom_frame (basis : Array W) (nx : Pos) (stack : W) (h ct i : Nat) :
-    Frame nx (liftFrom basis nx stack h ct i) ∧ (liftFrom basis nx stack h ct i).height.size = nx.height.size ∧
+    Untouched nx (liftFrom basis nx stack h ct i) ∧ (liftFrom basis nx stack h ct i).height.size = nx.height.size ∧
     (liftFrom basis nx stack h ct i).stacks.size = nx.stacks.size := by
-  unfold liftFrom Pos.setStack Frame
+  unfold liftFrom Pos.setStack Untouched
   simp only []
   split <;> (try split) <;> simp
 
@@ -279,7 +277,7 @@ theorem slideLoop_illegal (basis : Array W) (p : Pos) (top : Piece) (stack : W) 
 /-- **the drop loop**: with fuel `n + 1` on an iterator word of at most `n` nibbles, the regenerated loop ends like the
 model's `slideLoop` over the nibbles: the same error class, or the same state (the index variable and the iterator
 are dead after the loop) -/
-theorem loop1_eq (basis : Array W) (hB : 64 ≤ basis.size) (p : Pos) (hsz : p.cfg.size ≤ 8) (top : Piece) (stack : W) (dx dy : Int)
+theorem loop1_eq (basis : Array W) (p : Pos) (hB : p.cfg.size * p.cfg.size ≤ basis.size) (hsz : p.cfg.size ≤ 8) (top : Piece) (stack : W) (dx dy : Int)
     (hdx : -1 ≤ dx ∧ dx ≤ 1) (hdy : -1 ≤ dy ∧ dy ≤ 1) (n : Nat) :
     ∀ (s : BitVec 32) (_ : s >>> (4 * n) = 0#32) (st : SlideSt) (_ : Inv basis p st) (i : Nat),
     (∀ e, slideLoop basis p top stack dx dy (slideElems n s) st = .error e →
@@ -310,7 +308,7 @@ theorem loop1_eq (basis : Array W) (hB : 64 ≤ basis.size) (p : Pos) (hsz : p.c
       exact ⟨fun _ h => (by cases h), fun st' h => (by cases h; exact ⟨i, 0#32, e⟩)⟩
     · have hb' : (s == 0#32) = false := by simpa using hz
       have e2 : slideElems (n + 1) s = (s &&& 0xf#32).toNat :: slideElems n (s >>> 4) := by simp [slideElems, hb']
-      rw [loop1_step basis hB p hsz top stack dx dy hdx hdy st inv i s hz (n + 1), e2]
+      rw [loop1_step basis p hB hsz top stack dx dy hdx hdy st inv i s hz (n + 1), e2]
       simp only [slideLoop]
       cases hstep : slideStep basis p top stack dx dy st (s &&& 0xf#32).toNat with
       | error e => exact ⟨fun _ _ => rfl, fun st' h => (by cases h)⟩
